@@ -131,10 +131,14 @@ def explore_case(case: Case, open_regions: List[str], fidelity: str = "all", sto
         obs = case.obligations(Z3, data, outcome)
         if not obs:
             raise HarnessError("no obligation reached on a path of %s" % case.describe())
-        phi = Z3.and_(*[t for _, t in obs])
+        terms = [t for _, t in obs]
+        if all(z3.is_true(t) for t in terms):
+            phi = True  # every obligation is a concrete fact of this path: no solver query needed
+        else:
+            phi = Z3.and_(*terms)
         regs = case.regions(Z3, data, outcome) if open_regions else {}
         reg_terms = [regs[r] for r in open_regions if r in regs]
-        goal = Z3.or_(phi, *reg_terms) if reg_terms else phi
+        goal = Z3.or_(phi, *reg_terms) if (reg_terms and phi is not True) else phi
         model = ctx.prove(goal)
         if model is not None:
             values = ctx.model_values(model)
